@@ -70,11 +70,19 @@ func VxC15Exact() {
 	}
 	T := vx.U64("T")
 	vx.Assume(T <= 9)
-	plan, err := CalcRestorePlan(context.Background(), &vxPlanClient{files: files}, 0, vxAt(T), vxLogger())
-	// expected: largest i with ts[i] < T
+	// the requested instant need not lie on the grid file times lie on: it may be a
+	// nanosecond or most of a millisecond past a whole second (and so past a file
+	// stamped with that second)
+	frac := []time.Duration{0, time.Nanosecond, 999 * time.Microsecond}[vx.Choose("subMilli", 0, 2)]
+	plan, err := CalcRestorePlan(context.Background(), &vxPlanClient{files: files}, 0, vxAt(T).Add(frac), vxLogger())
+	// expected: largest i replicated strictly before the requested instant
 	var want uint64
 	for i := 1; i <= n; i++ {
-		want = vx.IteU64(ts[i] < T, uint64(i), want)
+		before := ts[i] < T
+		if frac > 0 {
+			before = ts[i] <= T
+		}
+		want = vx.IteU64(before, uint64(i), want)
 	}
 	if err != nil {
 		vx.Assert("error-only-before-first-backup", want == 0)
@@ -97,18 +105,31 @@ func VxC15SnapshotStamp() {
 	db := w.db
 	next := w.pos + 1
 	var stampNext int64
-	vxLockExecHook = func() {
-		// the round that held the executor: time passes, then it publishes pos+1
-		// covering the first frame after the replicated range
-		vx.ClockStep("syncTakes", 2)
-		stampNext = time.Now().UnixMilli()
-		lf := &vxLTX{level: 0, min: next, max: next, commit: w.sizePos, ts: stampNext, pages: []vxPg{{w.laterFrames[0].pgno, w.laterFrames[0].tag}}}
-		vx.FSWriteFile(db.LTXPath(0, next, next), vxEncodeLTXWAL(lf, w.laterOffset, vxFS, 100, 200))
-		db.invalidatePosCache()
-		db.syncState.lastSyncedWALOffset = w.laterOffset + vxFS
-		db.syncState.syncedToWALEnd = false
+	// what the DB's cache of the newest level-0 file can hold in a running process:
+	// nothing, or - filled by a compaction check from a replica that lags behind the
+	// local position - an older file with that file's time
+	if w.pos >= 2 && vx.Fault("level0CacheFromLaggingReplica") {
+		m := w.pos - 1
+		db.maxLTXFileInfos.m[0] = &ltx.FileInfo{Level: 0, MinTXID: m, MaxTXID: m, CreatedAt: time.UnixMilli(int64(1000 + m))}
 	}
-	defer func() { vxLockExecHook = nil }()
+	roundInBetween := vx.Fault("roundInBetween")
+	if roundInBetween {
+		vxLockExecHook = func() {
+			// the round that held the executor: time passes, then it publishes pos+1
+			// covering the first frame after the replicated range
+			vx.ClockStep("syncTakes", 2)
+			now := time.Now()
+			stampNext = now.UnixMilli()
+			lf := &vxLTX{level: 0, min: next, max: next, commit: w.sizePos, ts: stampNext, pages: []vxPg{{w.laterFrames[0].pgno, w.laterFrames[0].tag}}}
+			b := vxEncodeLTXWAL(lf, w.laterOffset, vxFS, 100, 200)
+			vx.FSWriteFile(db.LTXPath(0, next, next), b)
+			db.invalidatePosCache()
+			db.maxLTXFileInfos.m[0] = &ltx.FileInfo{Level: 0, MinTXID: next, MaxTXID: next, Size: int64(len(b)), CreatedAt: now}
+			db.syncState.lastSyncedWALOffset = w.laterOffset + vxFS
+			db.syncState.syncedToWALEnd = false
+		}
+		defer func() { vxLockExecHook = nil }()
+	}
 	pos, rc, err := db.SnapshotReader(context.Background())
 	if err != nil {
 		return
@@ -121,6 +142,12 @@ func VxC15SnapshotStamp() {
 	snap, derr := vxDecodeLTX(data)
 	vx.Assert("snapshot-decodes", derr == nil)
 	if derr != nil {
+		return
+	}
+	if !roundInBetween {
+		// the snapshot of the local position: never stamped earlier than the level-0
+		// file of its newest transaction (local files carry 1000+TXID ms)
+		vx.Assert("snapshot-stamp-not-before-its-newest-transaction", pos.TXID == w.pos && snap.ts >= int64(1000+w.pos))
 		return
 	}
 	vx.Assert("snapshot-covers-the-round-it-waited-for", pos.TXID == next && snap.max == next)
